@@ -312,9 +312,23 @@ def rule_limit_guards(ctx, cfg='prod-all'):
                     ct = za.subst(z, t, hz.term_op(ht['args'][0]), tgt=tgt)
                     if ct is not None:
                         term, at = ct, bi
+    zq = z
     if term is None:
-        raise AnchorMissing('i2osp call in key_gen (directly or through a width-generic helper)')
-    ub = z.upper_bound(term, at)
+        # the framing of the hash input (length checks and the 2-octet prefix) moved into a helper of key_gen (`key_gen_input(key_material, key_info)`):
+        # the bound is proved where the prefix is written, in the helper's own terms
+        for bi, t in kg.calls():
+            tgt = local_target(eng, t)
+            if not tgt or tgt not in prog.bodies or prog.bodies[tgt].kind == 'Closure' or tgt.endswith(('hash_to_scalar', 'i2osp')):
+                continue
+            hb_ = prog.bodies[tgt]
+            sites_ = [(hbi, ht) for hbi, ht in hb_.calls() if (local_target(eng, ht) or '').endswith('i2osp') and ht['args']]
+            if len(sites_) == 1:
+                za.summary(tgt)
+                hz = za.zf(tgt)
+                term, at, zq = hz.term_op(sites_[0][1]['args'][0]), sites_[0][0], hz
+    if term is None:
+        raise AnchorMissing('i2osp call in key_gen (directly, through a width-generic helper or in a helper that frames the hash input)')
+    ub = zq.upper_bound(term, at)
     yield Ob('RF-L', '%s#limit:key_info' % kg.path, ub == 65535, 'key_info longer than 65535 octets is refused before its length is encoded on 2 octets',
              kg.span, fact={'proved_max_len_at_i2osp': ub, 'term': tfmt(term)}, expected=65535)
     # the length encoded is the length of what is hashed after it
